@@ -17,7 +17,6 @@ UNITS = [
     {'name': 'ef.guards', 'backend': 'verus', 'tier': 'quick'},
     {'name': 'ef.scan', 'backend': 'verus', 'tier': 'quick'},
     {'name': 'rcl.str', 'backend': 'verus', 'tier': 'quick'},
-    {'name': 'rcl.read', 'backend': 'verus', 'tier': 'quick'},
     {'name': 'rcl.build', 'backend': 'verus', 'tier': 'quick'},
     {'name': 'rcl.decode', 'backend': 'verus', 'tier': 'quick'},
     {'name': 'k.rcl_int', 'backend': 'kani', 'tier': 'quick', 'props': ['C09', 'C12']},
